@@ -238,6 +238,12 @@ func (f *c14bFilter) OnReceive(ctx context.Context, headers api.HeaderMap, buf a
 		if f.spec.Verdict == "tstream" {
 			ret = api.StreamFilterStop
 		}
+	case "append":
+		// the receive filter writes the response itself through the handler's Append* methods (the stream ends there)
+		resp := bolt.NewRpcResponse(0, bolt.ResponseStatusError, hpHeader(map[string]string{"token": fmt.Sprintf("appended-by-%d", f.idx)}), nil)
+		f.rh.AppendHeaders(resp, false)
+		f.rh.AppendData(buffer.NewIoBufferString(fmt.Sprintf("resp-of-appended-by-%d", f.idx)), true)
+		ret = api.StreamFilterStop
 	case "rematch":
 		if f.calls == 1 {
 			ret = api.StreamFilterReMatchRoute
@@ -253,6 +259,8 @@ func (f *c14bFilter) OnReceive(ctx context.Context, headers api.HeaderMap, buf a
 			extra += "request-data-differs"
 		}
 		f.rh.SetRequestData(buffer.NewIoBufferString("body-of-" + c14bBigBody))
+		f.rh.SetRequestHeaders(f.rh.GetRequestHeaders())
+		f.rh.SetRequestTrailers(f.rh.GetRequestTrailers())
 	}
 	c14bCur.calls = append(c14bCur.calls, c14bCall{Kind: "recv", Idx: f.idx, Req: f.req, Phase: f.spec.Phase, Cur: cur, Ret: string(ret), Extra: extra})
 	return ret
@@ -280,7 +288,7 @@ func (f *c14bFilter) Append(ctx context.Context, headers api.HeaderMap, buf api.
 		if f.sh.GetResponseHeaders() != api.HeaderMap(resp) || f.sh.GetResponseData() == nil {
 			extra += "set-not-readable"
 		}
-		_ = f.sh.GetResponseTrailers()
+		f.sh.SetResponseTrailers(f.sh.GetResponseTrailers())
 	}
 	c14bCur.calls = append(c14bCur.calls, c14bCall{Kind: "send", Idx: f.idx, Req: f.req, Phase: "send", Ret: string(ret), Extra: extra})
 	return ret
@@ -551,6 +559,7 @@ type c14bAnswer struct {
 	Token  string // expected token header ("" = not compared)
 	Class  string
 	Direct bool
+	Bypass bool // written by the filter itself (Append*): ends the stream at once, does not pass the send filters
 }
 
 type c14bExp struct {
@@ -561,6 +570,7 @@ type c14bExp struct {
 	Recv        []int // expected calls of scripted receive filters (chain positions, in order)
 	BodyLen     int   // body length the upstream must see if forwarded
 	Modified    bool
+	Bypass      bool // the answer is written by a receive filter itself
 }
 
 func c14bExpect(cs *c14bCase, k int) c14bExp {
@@ -611,6 +621,10 @@ func c14bExpect(cs *c14bCase, k int) c14bExp {
 					exp.Answers = append(exp.Answers, c14bAnswer{Idx: i, Wire: bolt.ResponseStatusServerThreadpoolBusy, Body: "direct-by-filter", Token: "direct-by-filter", Class: "scripted direct", Direct: true})
 					answered = true
 					break pass
+				case "append":
+					exp.Answers = append(exp.Answers, c14bAnswer{Idx: i, Wire: bolt.ResponseStatusError, Body: fmt.Sprintf("appended-by-%d", i), Token: fmt.Sprintf("appended-by-%d", i), Class: "scripted append", Direct: true, Bypass: true})
+					exp.Bypass = true
+					return exp // the stream is over
 				case "tstream", "tstream-continue":
 					// takes effect unless a response is already set (then TerminateStream reports false)
 					if !answered {
@@ -884,6 +898,15 @@ func c14bCheckReq(cs *c14bCase, k int, obs *hpObs, allCalls []c14bCall, access [
 		// (3) exactly one response, the answering filter's
 		if len(down) != 1 {
 			report("request denied by "+firstClass+" but the client did not get exactly one response", fmt.Sprintf("%d responses; filters: %s", len(down), logStr))
+			return
+		}
+		if exp.Bypass {
+			// written by the receive filter itself: the statement's "passes the send filters" is about hijack / direct
+			// responses; this one must be exactly the filter's
+			a := exp.Answers[len(exp.Answers)-1]
+			if down[0].Status != a.Wire || down[0].Token != a.Token || down[0].BodyToken != a.Body {
+				report("denied by "+a.Class+": the response is not the one the answering filter produced", fmt.Sprintf("client got status=%d token=%q body=%q; filters: %s", down[0].Status, down[0].Token, down[0].BodyToken, logStr))
+			}
 			return
 		}
 		checkSend()
@@ -1246,7 +1269,7 @@ func c14bReps(full bool) (f, i, p []c14bElem) {
 func c14bScriptedAlphabet(full bool) []c14bElem {
 	var out []c14bElem
 	for _, ph := range []string{"before-route", "after-route", "after-choose-host"} {
-		vs := []string{"continue", "stop", "terminate", "hijack", "hijack-stop", "hijack-body", "direct", "tstream", "tstream-continue", "setdata"}
+		vs := []string{"continue", "stop", "terminate", "hijack", "hijack-stop", "hijack-body", "direct", "tstream", "tstream-continue", "setdata", "append"}
 		// (a re-match / re-choose request is honoured only in its own phase: first unit)
 		if ph == "after-route" {
 			vs = append(vs, "rematch")
@@ -1341,7 +1364,7 @@ func c14bAPI(full bool) []c14bCase {
 	}
 	isNew := func(e c14bElem) bool {
 		switch e.Verdict {
-		case "hijack-body", "tstream", "tstream-continue", "setdata":
+		case "hijack-body", "tstream", "tstream-continue", "setdata", "append":
 			return true
 		}
 		return false
@@ -1655,6 +1678,6 @@ func TestVerifXC14Builtin(t *testing.T) {
 	}
 	p.Note("scenarios", n)
 	p.Note("scenarios_total", len(scs))
-	p.End(complete, fmt.Sprintf("%d of %d scenarios (this shard): built-in filters alone (fault_inject %d configurations x headers, ip_access %d configurations x %d sources + header-carried address, payload_limit 2 key spellings x 5 limits x 3 statuses x body/no body, route-level overrides), chains of 2-3 of {fault_inject, ip_access, payload_limit, one scripted filter} in every order, scripted API verdicts (hijack with body, TerminateStream, SetRequestData, send-side replacement), two requests in flight; upstream {reply, close, silent}; all schedules with <=%d deviation (thorough: <=2 for the built-in filters alone and the two-requests scenarios)", n, len(scs), len(c14bFaultConfigs), len(c14bIPConfigs), len(c14bSources), bound),
+	p.End(complete, fmt.Sprintf("%d of %d scenarios (this shard): built-in filters alone (fault_inject %d configurations x headers, ip_access %d configurations x %d sources + header-carried address, payload_limit 2 key spellings x 5 limits x 3 statuses x body/no body, route-level overrides), chains of 2-3 of {fault_inject, ip_access, payload_limit, one scripted filter} in every order, scripted API verdicts (hijack with body, TerminateStream, receiver-side Append*, SetRequestData, send-side replacement), two requests in flight; upstream {reply, close, silent}; all schedules with <=%d deviation (thorough: <=2 where every request is denied or terminated)", n, len(scs), len(c14bFaultConfigs), len(c14bIPConfigs), len(c14bSources), bound),
 		"every chain is configured as JSON through the stream-filter manager (real factories) and run on the real proxy; the decision of each built-in filter is predicted by a reference model written from its configuration semantics; upstream bytes, downstream frames, scripted filters' call log and the per-stream access log are compared with the statement; distinct = distinct (scenario, call log, downstream frames)")
 }
